@@ -1,6 +1,7 @@
 package props
 
 import (
+	"bytes"
 	"fmt"
 	"os"
 	"regexp"
@@ -634,6 +635,17 @@ func checkC01(env *engine.Env, ci any) engine.Outcome {
 		}
 		k := comparePayload(f, pkg, want, c.Setting.pkgMTime(), viol)
 		keys = append(keys, f+":"+k)
+		// the same settings built as a library user would build them in Go (a deep copy sharing nothing with the parsed
+		// configuration, empty lists and maps written the other way round): the same package, byte for byte
+		if len(c.List) == 1 && c.Mutate == "" && c.Spell == "" && !strings.HasPrefix(c.List[0].Src, "huge") && !strings.HasPrefix(c.List[0].Src, "many") && !c.Setting.pkgMTime().IsZero() {
+			cd, cerr := packageCloned(text, f, true)
+			out.Transitions++
+			if cerr != nil {
+				viol("payload:settings-built-in-go:build-error:"+f, "packaging a deep copy of the effective settings failed: %v", cerr)
+			} else if !bytes.Equal(cd, data) {
+				viol("payload:settings-built-in-go:differs:"+f+":"+kindsOf(c.List), "the package from a deep copy of the effective settings (nil <-> empty flipped) differs from the package from the parsed configuration (%d vs %d bytes)", len(cd), len(data))
+			}
+		}
 		if len(pkg.Entries) > 0 {
 			out.Nontrivial = true
 		}
